@@ -225,6 +225,22 @@ def prop(case):
             why = check_slha_echo(text, out)
             if why:
                 bad.append((why, fmt))
+            # SPINFO: written exactly when there is something to report; 1 = program, 2 = version, 3 = warnings,
+            # 4 = error (never next to a result)
+            sp = {}
+            for b in slha.parse_blocks(out):
+                if b["name"] == "SPINFO":
+                    for t in b["lines"]:
+                        sp.setdefault(t[0], []).append(" ".join(t[1:]))
+            sp_in = any(b["name"] == "SPINFO" for b in slha.parse_blocks(text))
+            if not sp_in:
+                if "4" in sp:
+                    bad.append(("SPINFO[4] (error) next to a result", fmt, sp["4"]))
+                if bool(lib.get("have_warning")) != ("3" in sp):
+                    bad.append(("SPINFO[3] present <=> the model has a warning: violated", fmt, lib.get("have_warning"),
+                                sp.get("3")))
+                if sp and (sp.get("1") != ["GM2Calc"] or not re.fullmatch(r"\d+\.\d+\.\d+\S*", (sp.get("2") or [""])[0])):
+                    bad.append(("SPINFO[1], [2] are not program name and version", fmt, sp.get("1"), sp.get("2")))
         else:
             r = lambda k: lib.get("r." + k)
             if kind == "thdm":
